@@ -89,6 +89,20 @@ Theorem C17_composite_key_order : forall a b r s, same_shape a b -> Forall kdom 
 Proof. exact composite_key_order. Qed.
 Print Assumptions C17_composite_key_order.
 
+(* date-times: byte order = order on (seconds, nanoseconds); booleans: false < true *)
+Theorem C17_time_order : forall s1 n1 s2 n2 r t,
+  i64_range s1 -> i64_range n1 -> i64_range s2 -> i64_range n2 ->
+  bcmp (G_encodeTime [] s1 n1 ++ r) (G_encodeTime [] s2 n2 ++ t)
+  = match time_cmp (s1, n1) (s2, n2) with Eq => bcmp r t | c => c end.
+Proof. exact encodeTime_order. Qed.
+Print Assumptions C17_time_order.
+
+Theorem C17_bool_order : forall a b r s,
+  bcmp (G_EncodeBoolAscending [] a ++ r) (G_EncodeBoolAscending [] b ++ s)
+  = match Bool.compare a b with Eq => bcmp r s | c => c end.
+Proof. exact bool_order. Qed.
+Print Assumptions C17_bool_order.
+
 (* non-vacuity: the premises hold for extreme values and the statements compute on them *)
 Example C17_nonvacuous :
   i64_range (-9223372036854775808) /\ i64_range 9223372036854775807 /\
